@@ -355,7 +355,8 @@ Proof.
          |destruct a; apply sp_offer_lazy_nx in H; exact H
          |destruct a; [|discriminate]; apply sp_offer_temp_nx in H; exact H
          |destruct a; [|discriminate]; unfold sp_offer_userlazy in H; cbv zeta in H; crush H; cbn; split; lia]);
-    try (destruct (resizable bk); [apply sp_new_nx in H; exact H|discriminate]);
+    try (destruct (resizable bk); [|discriminate];
+         destruct (layout_limit c bk <? c_sz c * n); [injection H as <-; cbn; split; lia|apply sp_new_nx in H; exact H]);
     try (destruct (sp_take c st nx v k (match k with TPop => 0 | _ => idx end) KDrop) as [r0|] eqn:E0; [|discriminate];
          apply sp_take_nx in E0; injection H as <-; destruct (s_out r0 =? 0); cbn [s_nx s_out]; lia);
     try (unfold sp_write in H; crush H; cbn; split; lia);
@@ -544,7 +545,8 @@ Definition admissibleb (c : cfg) (w : world) (o : op) : bool :=
   | OSpareWrite _ v k => match get_vec v w with Some vv => vlen vv + k <=? vcap vv | None => true end
   | OWithCapacity _ bk n =>
       bk_wfb bk && (n <=? usize_max)
-      && match bk with BReloc c0 => c_sz c * N.max n c0 <=? alloc_limit | _ => c_sz c * n <=? alloc_limit end
+      && (match bk with BReloc c0 => c_sz c * N.max n c0 <=? alloc_limit | _ => c_sz c * n <=? alloc_limit end
+          || ((layout_limit c bk <? c_sz c * n) && match bk with BReloc c0 => c_sz c * c0 <=? alloc_limit | _ => true end))
   | _ => true
   end.
 Fixpoint Admissibleb (c : cfg) (w : world) (ops : list op) : bool :=
@@ -629,12 +631,16 @@ Proof.
 Qed.
 Lemma adm_withcapb_sound c bk n :
   bk_wfb bk && (n <=? usize_max)
-  && match bk with BReloc c0 => c_sz c * N.max n c0 <=? alloc_limit | _ => c_sz c * n <=? alloc_limit end = true ->
+  && (match bk with BReloc c0 => c_sz c * N.max n c0 <=? alloc_limit | _ => c_sz c * n <=? alloc_limit end
+      || ((layout_limit c bk <? c_sz c * n) && match bk with BReloc c0 => c_sz c * c0 <=? alloc_limit | _ => true end)) = true ->
   adm_withcap c bk n.
 Proof.
   intros H. apply andb_prop in H. destruct H as [H H3]. apply andb_prop in H. destruct H as [H1 H2].
   split; [apply bk_wfb_sound; exact H1|]. split; [apply N.leb_le; exact H2|].
-  destruct bk; apply N.leb_le; exact H3.
+  apply orb_prop in H3. destruct H3 as [H3|H3].
+  - left. destruct bk; apply N.leb_le; exact H3.
+  - right. apply andb_prop in H3. destruct H3 as [Ha Hb]. split; [apply N.ltb_lt; exact Ha|].
+    destruct bk; try exact I. apply N.leb_le. exact Hb.
 Qed.
 Lemma roomyb_sound c vv m : roomyb c vv m = true -> roomy c vv m.
 Proof.
@@ -767,6 +773,8 @@ Definition ex_ops : list op :=
     (* a splice whose second replacement value has another runtime type: the first one is already in the storage
        (leaked), the refused one and the one behind it are destroyed, the vector keeps the elements in front of the range *)
     OSplice Erased 9 (BIncluded 1) (BExcluded 2) [] FinDrop RBox 3 (Some 1) 3;
+    (* a capacity that no allocation can have: refused before anything is allocated, slot 0 stays empty *)
+    OWithCapacity 0 BHeap 4611686018427387904;
     OViews 8 ].                                   (* view geometry of the full StackN<2,8>: 6 bytes of elements, no spare *)
 
 Example ex_spec_defined : exists rs, spec_run ex_cfg [] 1 ex_ops = Some rs /\ length rs = length ex_ops.
@@ -803,7 +811,7 @@ Example ex_outcomes :
      (0,0,[]); (2,3,[]); (0,0,[1]); (0,0,[1; 1; 70; 0]); (0,0,[0]);
      (0,0,[3; 1; 61; 2; 1; 67; 1; 1; 66; 0]); (0,0,[2; 1; 61; 1]); (2,3,[]);
      (0,0,[]); (0,0,[]); (0,0,[1; 1; 73; 0]); (0,0,[2; 1; 74; 1; 1; 76; 0]);
-     (0,0,[1; 1; 75; 0; 78; 79]); (2,3,[]); (2,2,[]); (0,0,[0; 6; 6; 0; 0; 2; 6; 0; 0])].
+     (0,0,[1; 1; 75; 0; 78; 79]); (2,3,[]); (2,2,[]); (2,6,[]); (0,0,[0; 6; 6; 0; 0; 2; 6; 0; 0])].
 Proof. vm_compute. reflexivity. Qed.
 
 (** ** Corollaries in the vocabulary of the properties *)
